@@ -582,8 +582,29 @@ def run(repo, rep, tier):
                         rep.ob("C08.R4", m, f"{h}: arity from the node", okc or cnt is not None, "", key=f"C08.R4@{h}:arity")
         rep.ob("C08.R4", m, f"{h}: pushes one call text", seen, "", key=f"C08.R4@{h}:push")
         srcm = U(m)
-        ok_name = "FUNCTION_MAP[node_index]" in srcm and "node_index = node.AST_function_node_index" in srcm or "FUNCTION_MAP[node.AST_function_node_index]" in srcm
-        rep.ob("C08.R4", m, f"{h}: name from FUNCTION_MAP[node.AST_function_node_index]", ok_name, "", key=f"C08.R4@{h}:name")
+        # the name is looked up in FUNCTION_MAP under the node's own function index (subscript or .get), and the value
+        # looked up is the one that is rendered
+        from ..symexec import expand_aliases
+        lookups = [n for n in body_walk(m) if (isinstance(n, ast.Subscript) and U(n.value) == "FUNCTION_MAP" and isinstance(n.ctx, ast.Load))
+                   or (isinstance(n, ast.Call) and isinstance(n.func, ast.Attribute) and n.func.attr == "get" and U(n.func.value) == "FUNCTION_MAP" and len(n.args) == 1)]
+        keys = [U(expand_aliases(m, n.slice if isinstance(n, ast.Subscript) else n.args[0])) for n in lookups]
+        own_index = bool(keys) and all(k.endswith(".AST_function_node_index") for k in keys)
+        # the variable that receives the lookup is the one in the pushed text
+        recv = set()
+        for n in body_walk(m):
+            if isinstance(n, ast.Assign) and len(n.targets) == 1 and isinstance(n.targets[0], ast.Name) and any(l is x for l in lookups for x in ast.walk(n.value)):
+                recv.add(n.targets[0].id)
+        pushed_names = set()
+        for env in paths:
+            for v, call, _ in env["__pushes"]:
+                if isinstance(v, Text) and v.parts:
+                    pushed_names.add(str(v.parts[0]))
+        # (the interpreter shows a value taken from an expression as <expr>, a literal as itself: the fallback name)
+        flows = bool(pushed_names) and any("FUNCTION_MAP" in p_ for p_ in pushed_names) \
+            and all("FUNCTION_MAP" in p_ or any(r in p_ for r in recv) or "<" not in p_ for p_ in pushed_names)
+        ok_name = own_index and flows
+        rep.ob("C08.R4", m, f"{h}: name from FUNCTION_MAP[node.AST_function_node_index]", ok_name,
+               "" if ok_name else f"lookup keys {keys}; looked-up value held in {sorted(recv)}; rendered name part {sorted(pushed_names)}", key=f"C08.R4@{h}:name")
         ok_ar = "node.AST_function_node_numArgs" in srcm
         rep.ob("C08.R4", m, f"{h}: arity field AST_function_node_numArgs", ok_ar, "", key=f"C08.R4@{h}:arityfield")
     h = nfm.get("LIST_NODE")
@@ -651,9 +672,30 @@ def run(repo, rep, tier):
     h = nfm.get("NUMBER_NODE")
     if h in methods:
         m = methods[h][0]
-        s = U(m)
-        ok = "node.AST_number_node_decimal_low" in s and "number_to_str(node.AST_number_node_number)" in s
-        rep.ob("C08.R5", m, f"{h}: integer from decimal_low else number_to_str(number)", ok, "", key=f"C08.R5@{h}")
+        # summary of the handler: exactly one text is pushed; it is str(decimal_low) when decimal_high carries the
+        # integer marker, else number_to_str(number), all read from the node the handler was given
+        import copy as _copy
+        from ..funsum import Asg, Summarizer, _Simp, decide
+        from ..symexec import _strip as _sstrip
+        paths_n = Summarizer(effect_calls={"self.push"}).summarize(m)
+        bad = []
+        n_out = 0
+        for fx, kind, _got, p_ in decide(paths_n, {}):
+            n_out += 1
+            pushes = [e for e in p_.effects if e[0] == "call:self.push"]
+            marker = [k for k in fx if "AST_number_node_decimal_high" in k]
+            if len(pushes) != 1 or len(marker) != 1 or len(fx) != 1:
+                bad.append(f"{len(pushes)} texts pushed under {fx}")
+                continue
+            is_int = fx[marker[0]] == ("==" in marker[0])
+            node_t = marker[0].split(".AST_number_node_decimal_high")[0]
+            const_ok = marker[0].replace(" ", "").endswith("==3476778912330022912")
+            got = U(_Simp(Asg({}, fx)).visit(_copy.deepcopy(_sstrip(pushes[0][1]))))
+            want = f"str({node_t}.AST_number_node_decimal_low)" if is_int else f"number_to_str({node_t}.AST_number_node_number)"
+            if got != want or not const_ok or node_t not in ("args[2]", "node"):
+                bad.append(f"with {marker[0]} = {fx[marker[0]]} the text pushed is `{got}` instead of `{want}`")
+        ok = not bad and n_out == 2
+        rep.ob("C08.R5", m, f"{h}: integer from decimal_low else number_to_str(number)", ok, "; ".join(bad[:2]), key=f"C08.R5@{h}")
     h = nfm.get("DATE_NODE")
     if h in methods:
         m = methods[h][0]
@@ -702,6 +744,9 @@ def run(repo, rep, tier):
 
 
 VARIANTS = [
+    M("number-integer-marker-wrong", "formula.py", "if node.AST_number_node_decimal_high == 0x3040000000000000:", "if node.AST_number_node_decimal_high == 0x3040000000000001:", "C08.R5"),
+    M("number-integer-branches-swapped", "formula.py", "if node.AST_number_node_decimal_high == 0x3040000000000000:", "if node.AST_number_node_decimal_high != 0x3040000000000000:", "C08.R5"),
+    M("function-name-by-arity-index", "formula.py", "        node_index = node.AST_function_node_index", "        node_index = node.AST_function_node_numArgs", "C08.R4"),
     M("sub-swapped", "formula.py", 'self.push(f"{arg1}-{arg2}")', 'self.push(f"{arg2}-{arg1}")', "C08.R2"),
     M("div-popn-swapped", "formula.py", '        arg2, arg1 = self.popn(2)\n        self.push(f"{arg1}÷{arg2}")', '        arg1, arg2 = self.popn(2)\n        self.push(f"{arg1}÷{arg2}")', "C08.R2"),
     M("mul-ascii-glyph-wrong", "formula.py", 'self.push(f"{arg1}×{arg2}")', 'self.push(f"{arg1}+{arg2}")', "C08.R2"),
